@@ -214,10 +214,10 @@ class TermBuilder:
         if isinstance(it, ast.Call):
             r = self.ana.res.fq_of_expr(self.fi, it.func)
             if r and r[1] in ("builtins.range", "fast_ticc.numba_guard.prange", "numba.prange"):
-                t = tm.make_app("builtins.range", [self.term(a, self.cfg.stmt_node[id(for_stmt)]) for a in it.args])
+                t = tm.make_app("builtins.range", [self.term(a, self.cfg.for_init[id(for_stmt)]) for a in it.args])
                 return t if isinstance(t, Range) else None
             if r and r[1] == "builtins.reversed" and it.args:
-                t = self.term(it, self.cfg.stmt_node[id(for_stmt)])
+                t = self.term(it, self.cfg.for_init[id(for_stmt)])
                 return t if isinstance(t, Range) else None
         return None
 
@@ -334,7 +334,7 @@ class TermBuilder:
         st: ast.For = d.ast
         tgt = st.target
         it = st.iter
-        hdr = d
+        hdr = self.cfg.for_init[id(st)]
         rng = self.loop_range(st)
         if rng is not None and isinstance(tgt, ast.Name):
             s = Sym(name)
@@ -390,7 +390,7 @@ class TermBuilder:
                     return (Sym(k), Range(tm.ZERO, tm.length(v[1])))
                 if v[0] == "zip":
                     return (Sym(k), Range(tm.ZERO, tm.length(v[1][0])))
-        return (Sym("$loop%d" % for_stmt.lineno), App("iter", (self.term(for_stmt.iter, hdr),)))
+        return (Sym("$loop%d" % for_stmt.lineno), App("iter", (self.term(for_stmt.iter, self.cfg.for_init[id(for_stmt)]),)))
 
     # -- several definitions -------------------------------------------------
     def _piecewise(self, name, at: Node, defs: List[Node]) -> Optional[T]:
